@@ -115,7 +115,58 @@ func (r *runner) spawn(tag string, shard, nshards, only, from, caseTimeout int, 
 	}
 	done := make(chan error, 1)
 	go func() { done <- cmd.Wait() }()
+	// Parent-side stall detection, independent of the worker's own watchdog (which a wedged
+	// runtime can starve): if the progress log stops growing for longer than the per-case limit
+	// plus a margin, the worker is killed and the open case is treated as a hang ("H k").
+	stalled := make(chan struct{})
+	stopMon := make(chan struct{})
+	defer close(stopMon)
+	go func() {
+		limit := caseTimeout
+		if limit == 0 {
+			limit = r.plan.CaseTimeout
+		}
+		if limit == 0 {
+			limit = 10
+		}
+		stall := time.Duration(limit+45) * time.Second
+		logp := filepath.Join(r.dir, tag+".log")
+		lastSize, lastChange := int64(-1), time.Now()
+		for {
+			select {
+			case <-stopMon:
+				return
+			case <-time.After(2 * time.Second):
+			}
+			var size int64
+			if fi, err := os.Stat(logp); err == nil {
+				size = fi.Size()
+			}
+			if size != lastSize {
+				lastSize, lastChange = size, time.Now()
+				continue
+			}
+			if time.Since(lastChange) > stall {
+				if f, err := os.OpenFile(logp, os.O_WRONLY|os.O_APPEND, 0o644); err == nil {
+					k, _, _ := lastOpen(logp)
+					fmt.Fprintf(f, "H %d\n", k)
+					f.Close()
+				}
+				close(stalled)
+				return
+			}
+		}
+	}()
 	select {
+	case <-stalled:
+		cmd.Process.Signal(syscall.SIGQUIT)
+		select {
+		case <-done:
+		case <-time.After(5 * time.Second):
+			cmd.Process.Kill()
+			<-done
+		}
+		return 3, false
 	case err := <-done:
 		if err == nil {
 			return 0, false
@@ -273,9 +324,9 @@ func mergeSummary(dst, src *Summary) {
 func (r *runner) runShard(shard, nshards int) *workerResult {
 	res := &workerResult{}
 	from := 0
-	overall := 40 * time.Minute
+	overall := 25 * time.Minute
 	if r.tier == "thorough" {
-		overall = 3 * time.Hour
+		overall = 4 * time.Hour
 	}
 	for attempt := 0; attempt < 12; attempt++ {
 		tag := fmt.Sprintf("%s-s%d-a%d", r.label, shard, attempt)
@@ -344,6 +395,11 @@ func (r *runner) runShard(shard, nshards int) *workerResult {
 			}
 		}
 		from = k + 1
+		if len(res.crashes) >= 3 {
+			// three confirmed crashes / hangs in one shard: the verdict is in, do not spend an hour confirming more
+			res.incon = append(res.incon, fmt.Sprintf("shard %d: stopped after %d confirmed crashes/hangs (remaining cases from %d on not executed)", shard, len(res.crashes), from))
+			return res
+		}
 	}
 	res.incon = append(res.incon, fmt.Sprintf("shard %d: gave up after 12 worker restarts", shard))
 	return res
